@@ -6,13 +6,15 @@ Per streaming method (local / S3 / B2 × upload / download) the `try … except:
   *Unlink    : Bool         (local upload) the temporary file is unlinked in the branch
   *Truncate  : Bool         (downloads) `stream.truncate(…)` inside the `try`, before the copy
   *Decorated : Bool         the method carries the back-off decorator of its module
-plus the S3 digest helper's rewind, the exception classes the decorators catch, the give-up status, and for B2 which status the
+plus the S3 digest helper's rewind, the exception classes the decorators catch, the give-up status, the give-up predicate of the
+LOCAL decorator tabulated over a universe of OSError classes (`retryLocalGiveupErrnos`, see `local_giveup`), and for B2 which status the
 response hook turns into AuthRequired, which status the back-off handler lets through as a plain retry, whether it raises
 AuthRequired otherwise, whether it sleeps for Retry-After, and whether `requires_auth` bounds its re-authentication rounds.
 Nothing is assumed silently: what is not recognised is emitted as `none` / `false`, and `Retry.Cfg.Sound` (proved by `decide` in
 Properties/C12.lean) then fails to compile.
 """
 import ast
+import os
 
 HTTP_CODES = {'NOT_FOUND': 404, 'BAD_REQUEST': 400, 'FORBIDDEN': 403, 'UNAUTHORIZED': 401, 'TOO_MANY_REQUESTS': 429,
               'SERVICE_UNAVAILABLE': 503, 'INTERNAL_SERVER_ERROR': 500, 'REQUEST_TIMEOUT': 408}
@@ -122,6 +124,69 @@ def giveup_status(tree, call, unparse):
     return None
 
 
+# OSError classes the model distinguishes, by errno (Linux numbering; 0 = an OSError raised without an errno).  Python maps most of
+# them to a subclass of OSError (ENOENT → FileNotFoundError, EACCES / EPERM → PermissionError, EEXIST → FileExistsError,
+# EINTR → InterruptedError, EAGAIN → BlockingIOError, ETIMEDOUT → TimeoutError, ENOTDIR, EISDIR, EPIPE, ECONNRESET …), the others
+# (EIO, ENOSPC, EBUSY, EROFS, ESTALE, EDQUOT, EMFILE) stay plain OSError — a predicate can tell them apart by `errno` only.
+OS_UNIVERSE = (0, 1, 2, 4, 5, 11, 13, 16, 17, 20, 21, 24, 28, 30, 32, 104, 110, 116, 122)
+
+
+def sample_oserror(k):
+    """an OSError of errno class `k` as the OS would raise it (Python picks the subclass)"""
+    if k == 0:
+        return OSError('sample OSError without errno')
+    return OSError(k, os.strerror(k), '/some/where')
+
+
+def local_giveup(tree, call, unparse):
+    """`giveup=` of the local back-off decorator → (errnos of OS_UNIVERSE for which it says True, exact?, note).
+
+    exact = the list is the whole truth for EVERY OSError (only when there is no predicate at all).  A predicate is *tabulated*:
+    the module-level function (or lambda) it names is compiled on its own — with the module's imports and the module-level
+    helper functions / constants it can see — and called on one sample OSError per class.  It must be a pure function of the
+    exception; whatever cannot be evaluated is reported as "gives up on everything" (so that the model is never more optimistic
+    than the code) with exact = False."""
+    import errno as _errno
+    node = None
+    for k in (call.keywords if call is not None else []):
+        if k.arg == 'giveup':
+            node = k.value
+    if call is None:
+        return list(OS_UNIVERSE), False, 'back-off decorator of local.py not found'
+    if node is None:
+        return [], True, None
+    if isinstance(node, ast.Lambda) and isinstance(node.body, ast.Constant) and node.body.value in (False, None, 0):
+        return [], True, 'giveup=%s never gives up' % unparse(node)      # backoff's own default, written out
+    try:
+        ns = {'__name__': 'c12_extracted_local_giveup', 'errno': _errno, 'os': os}
+        pieces = []
+        for st in tree.body:
+            if isinstance(st, (ast.Import, ast.ImportFrom)):
+                if isinstance(st, ast.ImportFrom) and st.level:          # relative imports: the predicate must not need them
+                    continue
+                try:
+                    exec(compile(ast.Module(body=[st], type_ignores=[]), 'local.py', 'exec'), ns)
+                except Exception:  # noqa: BLE001   (a module that is not installed for the extractor's interpreter)
+                    pass
+            elif isinstance(st, ast.FunctionDef):
+                pieces.append(ast.FunctionDef(name=st.name, args=st.args, body=st.body, decorator_list=[], returns=None,
+                                              type_comment=None, **({'type_params': []} if hasattr(st, 'type_params') else {})))
+            elif isinstance(st, ast.Assign) and not isinstance(st.value, ast.Call):
+                pieces.append(st)                                         # module constants (tuples of errnos / classes …)
+        for st in pieces:
+            try:
+                exec(compile(ast.fix_missing_locations(ast.Module(body=[st], type_ignores=[])), 'local.py', 'exec'), ns)
+            except Exception:  # noqa: BLE001
+                pass
+        pred = eval(compile(ast.fix_missing_locations(ast.Expression(body=node)), 'local.py', 'eval'), ns)
+        if not callable(pred):
+            raise TypeError('giveup= is not callable')
+        table = [k for k in OS_UNIVERSE if bool(pred(sample_oserror(k)))]
+        return table, False, 'giveup=%s tabulated over %d OSError classes: gives up on errno %s' % (unparse(node), len(OS_UNIVERSE), table)
+    except Exception as e:  # noqa: BLE001
+        return list(OS_UNIVERSE), False, 'giveup=%s could not be tabulated (%r): assumed to give up on everything' % (unparse(node), e)
+
+
 def section(ctx):
     emit, notes, unparse = ctx.emit, ctx.notes, ctx.unparse
 
@@ -144,6 +209,13 @@ def section(ctx):
         if isinstance(node, ast.Assign) and isinstance(node.value, ast.Call) and unparse(node.value.func).endswith('on_exception') \
                 and isinstance(node.targets[0], ast.Name):
             deco_var = node.targets[0].id
+    deco_call = assigned_call(tree, deco_var) if deco_var else None
+    errnos, exact, note = local_giveup(tree, deco_call, unparse)
+    emit(f'def retryOsUniverse : List Nat := [{", ".join(map(str, OS_UNIVERSE))}]   -- OSError classes (errno; 0 = none) the give-up predicate is tabulated over')
+    emit(f'def retryLocalGiveupErrnos : List Nat := [{", ".join(map(str, errnos))}]   -- classes for which the local decorator\'s `giveup=` says True')
+    emit(f'def retryLocalGiveupExact : Bool := {_b(exact)}   -- true: there is no `giveup=` predicate, the (empty) list holds for every OSError')
+    if note:
+        notes['retry:local-giveup'] = note
     up = ctx.find_func(tree, 'Local', 'upload_stream')
     down = ctx.find_func(tree, 'Local', 'download_stream')
     emit_handler('retryLocalUp', handler_info(up, unparse), unlink=True)
